@@ -186,12 +186,12 @@ Lemma entry_throw_irrelevant {A} (m:M A) c rn (P:A -> rnode -> list titem -> Pro
   sim val m rn P -> sim val (if b then on_throw m c else m) rn P.
 Proof. intros H. destruct b; [apply sim_on_throw|]; exact H. Qed.
 
-Lemma L_entry {q} fuel s ev rn : okLq q mc rn -> 1 <= fuel ->
-  sim val (exec_entry cf contained mc children fuel s ev EkPlain) rn
+Lemma L_entry {q} fwd fuel s ev rn : okLq q mc rn -> 1 <= fuel ->
+  sim val (exec_entry_gen cf contained mc children fwd fuel s ev EkPlain) rn
       (fun _ rn' items => okLq q mc rn' /\ processing rn' = processing rn /\
                           (items, abs rn') = sp_enter_state (sp_enter_subs mc) ev s ([], abs rn)).
 Proof.
-  intros Hok Hfuel. unfold exec_entry, sp_enter_state. rewrite enter_subs_nth, abs_kid.
+  intros Hok Hfuel. unfold exec_entry_gen, sp_enter_state. rewrite enter_subs_nth, abs_kid.
   destruct (s_sub (get_state mc s)) as [c|] eqn:Es.
   - destruct (child_some s c Es) as (co & Hco & Hsp). rewrite Hco.
     destruct (okL_kid mc rn s c Hok Es) as (kn & Hk & Hkn). rewrite Hk. cbn [option_map].
@@ -263,7 +263,7 @@ Lemma L_take {q} fuel r x ev rn : okLq q mc rn -> 1 <= fuel -> core_row' x ->
                set_act_at r (switch_id pol 1 (r_src x) nxt) ;;
                res <- run_action mc x ev ;;
                set_act_at r (switch_id pol 2 (r_src x) nxt) ;;
-               exec_entry cf contained mc children fuel nxt ev (tgt_ekind (r_tgt x)) ;;
+               exec_entry_gen cf contained mc children (row_converts x) fuel nxt ev (tgt_ekind (r_tgt x)) ;;
                set_act_at r (switch_id pol 3 (r_src x) nxt) ;;
                ret res
            end) rn
@@ -318,7 +318,7 @@ Proof.
                            set_act_at r (switch_id pol 1 (r_src x) nxt) ;;
                            res <- run_action mc x ev ;;
                            set_act_at r (switch_id pol 2 (r_src x) nxt) ;;
-                           exec_entry cf contained mc children fuel nxt ev (tgt_ekind (r_tgt x)) ;;
+                           exec_entry_gen cf contained mc children (row_converts x) fuel nxt ev (tgt_ekind (r_tgt x)) ;;
                            set_act_at r (switch_id pol 3 (r_src x) nxt) ;;
                            ret res
                        end
@@ -1099,7 +1099,7 @@ Proof.
   - apply sim_ret. auto.
   - eapply sim_bind; [apply (sim_get val rn (fun a rn1 i1 => a = rn /\ rn1 = rn /\ i1 = [])); auto|].
     cbn beta. intros a rn0 i0 (-> & -> & ->).
-    eapply sim_bind; [apply (L_entry (q:=q) fuel (nth r (act rn) 0) ev rn Hok Hf)|].
+    eapply sim_bind; [apply (L_entry (q:=q) true fuel (nth r (act rn) 0) ev rn Hok Hf)|].
     cbn beta. intros u rn1 i1 (Hok1 & Hp1 & E1).
     eapply sim_conseq; [apply (IH (S r) rn1 (i1 ++ items0) Hok1)|].
     cbn beta. intros u2 rn2 i2 (Hok2 & Hp2 & E2).
